@@ -585,14 +585,18 @@ RunResult Controller::run(const RunOptions& opts) {
     } else if (opts.mode == RunOptions::Replay) {
       if (!opts.finishAfterReplay)
         break;
-      // finish deterministically: lowest-index step candidate, else first env candidate
-      for (auto& c : cands)
-        if (c.kind == 0) {
-          chosen = c;
-          break;
-        }
-      if (!chosen.t)
-        chosen = cands[0];
+      // finish deterministically and fairly: round-robin over the step candidates (a fixed
+      // "lowest index" choice can spin for ever on a lock whose holder is parked)
+      {
+        std::vector<Cand> steps;
+        for (auto& c : cands)
+          if (c.kind == 0)
+            steps.push_back(c);
+        if (!steps.empty())
+          chosen = steps[res.steps % steps.size()];
+        else
+          chosen = cands[0];
+      }
     } else {
       if (opts.pctDepth > 0) {
         for (auto& c : cands)
